@@ -22,6 +22,7 @@ import (
 	"path/filepath"
 	rtdebug "runtime/debug"
 	"strings"
+	"syscall"
 	"testing"
 	"time"
 )
@@ -31,7 +32,7 @@ func TestVerifC07(t *testing.T) {
 		ID: "C07", Level: "fault_enumeration",
 		Rule:        "8 base sessions x {Server, RequestServer} x allocator {off,on} x transport {close-both, keep-input-after-Close}; mutations of request j: stream EOF at a byte offset inside it (quick: first/last 2 offsets + seeded 15%; thorough: every offset), well-framed truncation of the body at every offset the reference decoder rejects, every 4-byte window that is a string-length field replaced by {n+1, 2^20, 2^31-1, 2^32-1}, zero-length and oversized frames, every unknown/response type byte (one request per session), plus 'ambiguous' mutations (garbage inside the frame, random byte flips) judged by the robustness oracles only. A class is (session, config, request index, mutation kind).",
 		Assumptions: []string{"a mutation is 'definitely malformed' only if the independent reference decoder rejects it (or it is a framing violation / non-request type)", "sessions are sequential (determinate), so the two runs are comparable", "race detector on"},
-		Units:       func(tier vfTier, seed uint64) int { return 8*4*2 + 16 + 4 },
+		Units:       func(tier vfTier, seed uint64) int { return 8*4*2 + 16 + 4 + 4 },
 		Shards: func(tier vfTier) int {
 			if tier == vfThorough {
 				return 16
@@ -47,6 +48,7 @@ type c07Env struct {
 	kind     vfKind
 	alloc    bool
 	keepRead bool
+	debug    bool   // os-backed: the server writes diagnostics to a stream (WithDebug)
 	dir      string // os-backed: the served directory (same path for every run)
 	store    *vfStore
 	canary   string
@@ -300,6 +302,8 @@ func c07Connect(e *c07Env) (*vfRawSession, error) {
 	cfg := vfSrvCfg{Kind: e.kind, Alloc: e.alloc}
 	if e.kind == vfRS {
 		cfg.H = e.store.Handlers(vfHandlerOpt{OpenFile: true, CmdAll: true, ListAll: true})
+	} else if e.debug {
+		cfg.Debug = &vfSink{} // a server with a diagnostics stream (WithDebug)
 	}
 	return vfRawConnect(cfg, vfPipeOpts{SrvKeepRead: e.keepRead}, true)
 }
@@ -380,6 +384,7 @@ func c07Burst(u *vfUnit, idx int) {
 		u.Count("bursts_ending_with_requests_in_flight", 1)
 		u.SetAdd("mutation_kinds", "burst-then-"+tail)
 		e.reset()
+		e.debug = round%2 == 1
 		base := vfGoBaseline()
 		rs, err := c07Connect(e)
 		if err != nil {
@@ -434,6 +439,89 @@ func c07Burst(u *vfUnit, idx int) {
 // c07InitVariants: the first packet of a session is input like any other. INIT packets announcing any version
 // (with and without extension data, once or twice), followed by ordinary requests and the end of the stream:
 // Serve returns, nothing leaks, and what was answered is a prefix of [VERSION, the answers to the requests].
+// c07ManyHandles: a session that holds very many handles open at once (files, directories and refused opens mixed)
+// and then ends without closing any: every OPEN of an existing object is answered with a handle and everything the
+// server opened is released when Serve returns.
+func c07ManyHandles(u *vfUnit, idx int) {
+	e := &c07Env{kind: vfKind(idx % 2), alloc: (idx/2)%2 == 1}
+	if e.kind == vfOS {
+		e.dir = filepath.Join(u.TempDir(), "srv")
+	}
+	for ni, n := range []int{300, 1025, 2600} {
+		if e.kind == vfOS {
+			// every handle of the os-backed server is a descriptor of this process: stay well below the limit
+			var lim syscall.Rlimit
+			if syscall.Getrlimit(syscall.RLIMIT_NOFILE, &lim) == nil && uint64(n) > (lim.Cur-min(lim.Cur, 200)) {
+				n = int(lim.Cur - min(lim.Cur, 200))
+			}
+		}
+		label := fmt.Sprintf("many-handles/%v/alloc=%v/n=%d", e.kind, e.alloc, n)
+		if !u.Case(ni, fmt.Sprintf("%s:many-handles", e.kind), "%s", label) {
+			continue
+		}
+		u.Eval(label)
+		u.Count("mutated_streams", 1)
+		u.SetAdd("mutation_kinds", "many-open-handles-then-eof")
+		e.reset()
+		base := vfGoBaseline()
+		rs, err := c07Connect(e)
+		if err != nil {
+			u.Inconclusive("connect: %v", err)
+			return
+		}
+		var stream []byte
+		wantHandle := make([]bool, n)
+		for i := 0; i < n; i++ {
+			var p vfPkt
+			switch i % 5 {
+			case 0, 1:
+				p = vfPkt{Type: rfOpen, Path: e.p("a"), Pflags: rfRead_}
+				wantHandle[i] = true
+			case 2:
+				p = vfPkt{Type: rfOpendir, Path: e.p("d")}
+				wantHandle[i] = true
+			case 3:
+				p = vfPkt{Type: rfOpen, Path: e.p("b"), Pflags: rfRead_ | rfWrite_}
+				wantHandle[i] = true
+			default:
+				p = vfPkt{Type: rfOpen, Path: e.p("missing"), Pflags: rfRead_}
+			}
+			p.ID = uint32(1000 + i)
+			stream = append(stream, p.Frame()...)
+		}
+		cnt0 := rs.R.Count()
+		sent := vfGo(func() { rs.R.Send(stream) })
+		w := map[string]any{"config": label}
+		wv, dump := rs.R.WaitCount(cnt0+n, 180*time.Second)
+		<-sent
+		if wv == vfStuck {
+			u.Violation("serve-wedged:"+e.kind.String()+":many-handles", fmt.Sprintf("%s: %d of %d answers arrived and the process is quiescent\n%s", label, rs.R.Count()-cnt0, n, vfTrim(dump, 2000)), w)
+		} else if wv != vfDone {
+			u.Inconclusive("%s: wall-clock cap", label)
+		}
+		all := rs.R.All()
+		if len(all)-cnt0 < n && wv == vfDone {
+			u.Violation("many-handles-session-ended:"+e.kind.String(), fmt.Sprintf("%s: the server ended the session after %d of %d answers although every request was well-formed", label, len(all)-cnt0, n), w)
+		}
+		refused := 0
+		for i := 0; i < n && cnt0+i < len(all); i++ {
+			p, perr := vfParse(all[cnt0+i], true)
+			if perr != nil || p.ID != uint32(1000+i) || (wantHandle[i] && p.Type != rfHandle) || (!wantHandle[i] && p.Type != rfStatus) {
+				refused++
+				if refused == 1 {
+					u.Violation("many-handles-open-answer:"+e.kind.String(), fmt.Sprintf("%s: open request #%d of %d (objects exist, every earlier handle still open) answered %v (%v)", label, i, n, p, perr), w)
+				}
+			}
+		}
+		if msg := rs.End(180 * time.Second); msg != "" {
+			u.Violation("serve-does-not-return:"+e.kind.String()+":many-handles", label+": "+msg, w)
+			continue
+		}
+		c07After(u, e, base, label, w)
+		u.Max("handles_open_at_once", int64(n*4/5))
+	}
+}
+
 func c07InitVariants(u *vfUnit, idx int) {
 	e := &c07Env{kind: vfKind(idx % 2), alloc: (idx/2)%2 == 1}
 	if e.kind == vfOS {
@@ -510,6 +598,10 @@ func c07InitVariants(u *vfUnit, idx int) {
 }
 
 func c07Run(u *vfUnit) {
+	if u.Index >= 84 {
+		c07ManyHandles(u, u.Index-84)
+		return
+	}
 	if u.Index >= 80 {
 		c07InitVariants(u, u.Index-80)
 		return
@@ -547,6 +639,7 @@ func c07Run(u *vfUnit) {
 		}
 		w := map[string]any{"config": label, "mutation": m.desc, "bytes_hex": fmt.Sprintf("%x", vfTrimB(m.bytes, 600)), "request_index": m.j}
 		e.reset()
+		e.debug = mi%2 == 1
 		base := vfGoBaseline()
 		rs, err := c07Connect(e)
 		if err != nil {
